@@ -1203,6 +1203,7 @@ CHECK_ADF_ABORT( *error_return ) ;
 if( link_path_length > 0 ) { /** this node IS a link **/
     /** Delete the link path data for this node **/
    ADFI_delete_data( file_index, &node_header, error_return ) ;
+   CHECK_ADF_ABORT( *error_return ) ;
    }
 else {  /** this node is NOT a link **/
 
